@@ -481,6 +481,12 @@ pub fn branch_quat(kind: u64, u1: f64, u2: f64, u3: f64, e: f64) -> [f64; 4] {
         2 => hopf(q4 + off, tau * u2, tau * u3),
         3 => hopf(u2 * 2.0 * q4, q4 + off + (u3 * 4.0).floor() * 2.0 * q4, tau * u3),
         4 => hopf(u2 * 2.0 * q4, tau * u3, q4 + off + (u3 * 4.0).floor() * 2.0 * q4),
+        6 => {
+            // a small rotation (|angle| = 10^e, e = -9..-0.5) about any axis: not the identity, though `is_near_identity` says so below 2.8e-3
+            let a = sphere_point(2.0 * u2 - 1.0, tau * u3);
+            let h = 0.5 * off;
+            [a[0] * h.sin(), a[1] * h.sin(), a[2] * h.sin(), h.cos()]
+        }
         _ => {
             // one of the 24 rotations of the cube (exact quarter and third turns: images of the axes are axes again, so
             // rotation-matrix entries are exact zeros), with either sign of the quaternion
